@@ -7,7 +7,7 @@
 // image /CS) the content identity of what the name resolves to (colour of a partition refinement
 // over both documents: blind to object numbers, to merged identical objects and to direct/indirect).
 // Names used by the content of a form XObject that has no /Resources of its own are resolved
-// against the page's resources too. Oracle: same page count and order, equal fingerprints x vs y;
+// against the page's resources too, and so on through the resource-less forms it paints (any depth). Oracle: same page count and order, equal fingerprints x vs y;
 // y vs z: same number of objects and the same strict canonical form (idempotence).
 package main
 
@@ -94,7 +94,7 @@ func corpusFiles(limit int64) []string {
 func main() {
 	vk.Run("C20", "exploration", func(t *vk.T) {
 		api.DisableConfigDir()
-		t.Rule("case = (document, optimiser variant in {default, dedup-content (OptimizeDuplicateContentStreams), keep-resdicts (OptimizeResourceDicts=false)}, writer {xref stream} x {object stream}); documents: pdfgen.BuildOpt (3-8 of 38 scenarios: exact and near duplicate fonts/images/forms/content streams, shared/inherited/unused/unreferenced resources, resources used only by form content, name escapes, inline images, property lists), pdfgen.RandomSpec with duplicates and unreferenced objects, corpus files pdfstrict reads without defect; non-trivial = distinct (document, variant, writer) whose optimised output was read back and compared")
+		t.Rule("case = (document, optimiser variant in {default, dedup-content (OptimizeDuplicateContentStreams), keep-resdicts (OptimizeResourceDicts=false)}, writer {xref stream} x {object stream}); documents: pdfgen.BuildOpt (3-8 of 43 scenarios: exact and near duplicate fonts/images/forms/content streams, shared/inherited/unused/unreferenced resources, resources used only by form content, chains (depth 1-4, diamond, every level using its own page resource, middle form with own /Resources, inherited or shared page resources) of form XObjects without /Resources whose innermost form draws each resource category from the page, name escapes, inline images, property lists), pdfgen.RandomSpec with duplicates and unreferenced objects, corpus files pdfstrict reads without defect; non-trivial = distinct (document, variant, writer) whose optimised output was read back and compared")
 		t.Assume("what a page shows = decoded content bytes, effective boxes, Rotate, UserUnit and the content identity of every resource its content operators name; rendering is not performed")
 		t.Assume("content identity: decoded stream data, dictionaries without /Length /Filter /DecodeParms /DL, null entries = absent, numbers to 12 fractional digits; the subset tag of /BaseFont in font dictionaries (ABCDEF+) and /PieceInfo of form XObjects are not part of what is shown")
 		t.Assume("idempotence is judged on outputs of the same variant and writer configuration: number of in-use objects and strict canonical form from Root+Info (Info Producer/ModDate/CreationDate ignored)")
@@ -129,6 +129,19 @@ func (w *worker) input(j job) (in []byte, name string, scen []string, pageScen [
 		bt := pdfgen.BuildOpt(rng, 3+rng.IntN(6))
 		for _, p := range bt.Pages {
 			pageScen = append(pageScen, p.Scenario)
+			// parameters drawn by the nested-form scenarios: "depth=3 cats=Font,Shading [..]"
+			for _, f := range strings.Fields(p.Detail) {
+				switch {
+				case strings.HasPrefix(f, "depth="):
+					w.t.Count("form_chain/"+f, 1)
+				case strings.HasPrefix(f, "cats="):
+					for _, c := range strings.Split(strings.TrimPrefix(f, "cats="), ",") {
+						w.t.Count("form_chain/innermost_uses="+c, 1)
+					}
+				default:
+					w.t.Count("form_chain/"+f, 1)
+				}
+			}
 		}
 		return bt.Bytes, fmt.Sprintf("opt#%d[%s]", j.Idx, strings.Join(bt.Scenarios, ",")), bt.Scenarios, pageScen
 	case "gen":
